@@ -68,6 +68,28 @@ def _toks(text):
     return str(text).replace("(", " ( ").replace(")", " ) ").split()
 
 
+_PF = [0]
+
+
+def _parse_plan(exporter, problem, plan, plan_file):
+    """through the action_sequence argument, or through a real plan file (with / without a final line break)"""
+    if not plan_file:
+        return exporter.parse_plan(problem, action_sequence=[line_of(c) + "\n" for c in plan])
+    import os
+    from pathlib import Path
+    _PF[0] += 1
+    path = Path(lib.tmpdir()) / f"c04_{os.getpid()}_{_PF[0]}.solution"
+    text = "\n".join(line_of(c) for c in plan) + ("\n" if plan_file == "newline" and plan else "")
+    path.write_text(text)
+    try:
+        return exporter.parse_plan(problem, plan_path=path)
+    finally:
+        try:
+            os.unlink(path)
+        except OSError:
+            pass
+
+
 def line_of(call):
     return "(" + " ".join([call[0]] + list(call[1])) + ")"
 
@@ -109,7 +131,7 @@ def run_plan(task):
             world.problem.initial_state_fluents = state.state_fluents
             init_digest = lib.state_digest(state)
             exporter = TrajectoryExporter(world.domain, allow_invalid_actions=allow)
-            trips = exporter.parse_plan(world.problem, action_sequence=[line_of(c) + "\n" for c in plan])
+            trips = _parse_plan(exporter, world.problem, plan, task.get("plan_file"))
             lines = exporter.export(trips) if trips else []
             direct = None
             if plan:
@@ -208,8 +230,7 @@ def replay_plan(task, atoms, fls):
     world.problem.initial_state_fluents = state.state_fluents
     out = {"diffs": []}
     try:
-        trips = TrajectoryExporter(world.domain, allow_invalid_actions=allow).parse_plan(
-            world.problem, action_sequence=[line_of(c) + "\n" for c in plan])
+        trips = _parse_plan(TrajectoryExporter(world.domain, allow_invalid_actions=allow), world.problem, plan, task.get("plan_file"))
     except Exception as e:  # noqa
         out["observed"] = f"{type(e).__name__}: {e}"
         out["disagree"] = True
@@ -304,9 +325,11 @@ def run_line(task):
 
 def tasks_for(tier, seed):
     tasks = []
-    for p in plans(tier, seed):
+    for pi, p in enumerate(plans(tier, seed)):
         for allow in (False, True):
-            tasks.append({"kind": "plan", "plan": p, "allow": allow, "cap": 9 if tier == "quick" else 12,
+            # every third plan is read from a real plan file, alternately with and without a final line break
+            pf = None if (pi + allow) % 3 else ("newline" if (pi // 3) % 2 else "no_newline")
+            tasks.append({"kind": "plan", "plan": p, "allow": allow, "cap": 9 if tier == "quick" else 12, "plan_file": pf,
                           "max_paths": 3000 if tier == "quick" else 30000})
     for lens in ([1], [2], [1, 1], [2, 1], [1, 1, 1], [2, 2, 1]):
         for ws in (" ", "\t", "  "):
